@@ -161,8 +161,12 @@ solveNormalizedCubic (T r, T s, T t, T x[3])
             return sign * std::pow (sign * a, T (1) / x);
         };
 
-        T u = real_root (-q / 2 + std::sqrt (D), 3);
-        T v = -p / (T (3) * u);
+        // Take the square root with the sign of -q/2: the other choice
+        // subtracts two nearly equal numbers when q > 0 and p is small
+        // (u loses all its digits, or becomes 0 and v infinite).
+        T sqrtD = std::sqrt (D);
+        T u     = real_root ((q > 0) ? -q / 2 - sqrtD : -q / 2 + sqrtD, 3);
+        T v     = -p / (T (3) * u);
 
         x[0] = u + v - r / 3;
         return 1;
